@@ -97,6 +97,7 @@ type State struct {
 	pendingHavoc []string
 	Shared []string
 	Entry  map[int]*entrySnap
+	Base   map[string]string // heap name -> entry value updated with every interference step (frame baseline)
 	Owner  map[string]string // fresh ref -> the fresh object whose field holds it
 	LoopHeap map[*ssa.BasicBlock]map[string]string // heap snapshot at the entry of each loop (loopentry())
 	// Private: refs of struct objects allocated here whose address provably never escapes this body.
@@ -120,6 +121,7 @@ func (s *State) clone() *State {
 		Private: s.Private,
 		LoopHeap: s.LoopHeap,
 		Owner:  s.Owner,
+		Base:   s.Base,
 		Entry:  s.Entry,
 		Epoch:  s.Epoch,
 		pendingHavoc: s.pendingHavoc[:len(s.pendingHavoc):len(s.pendingHavoc)],
@@ -221,6 +223,7 @@ func (e *Engine) regHeap(name, sort string) {
 
 // PathEnd is a finished path of the top-level function (return or panic).
 type PathEnd struct {
+	Lines   []string // path condition at the return, before postconditions were asserted/assumed
 	S       *State
 	Results []*Val
 	Kind    string // return | panic | loopback
@@ -408,4 +411,31 @@ func (e *Engine) heapHavoc(s *State, name string) {
 	n := e.fresh("H!" + name)
 	s.add("(declare-const " + n + " " + sort + ")")
 	s.Heap[name] = n
+}
+
+// baseGet: the frame baseline of a heap map: its entry value with every interference step replayed.
+func (e *Engine) baseGet(s *State, name, sort string) string {
+	if b, ok := s.Base[name]; ok {
+		return b
+	}
+	if ent := s.Entry[0]; ent != nil {
+		if h, ok := ent.Heap[name]; ok {
+			return h
+		}
+	}
+	return e.heapOld(s, name, sort)
+}
+
+// interfere records that another goroutine may have changed heap map `name` at object obj to val:
+// both the current heap and the frame baseline take the new value.
+func (e *Engine) interfere(s *State, name, sort, obj, val string) {
+	cur := e.heapGet(s, name, sort)
+	base := e.baseGet(s, name, sort)
+	e.heapSet(s, name, sort, app("store", cur, obj, val))
+	nb := make(map[string]string, len(s.Base)+1)
+	for k, v := range s.Base {
+		nb[k] = v
+	}
+	nb[name] = e.define(s, "B!"+name, sort, app("store", base, obj, val))
+	s.Base = nb
 }
